@@ -423,7 +423,7 @@ def _validate_once(spec, cfg, path, timeout, env=None, dfs=False):
 
 
 def validate_trace(run, spec, recs, name, restart=lambda rec: True, describe=None, chunks=None,
-                   timeout=900, max_rejects=12, env=None, cfg=None, dfs=False):
+                   timeout=900, max_rejects=12, env=None, cfg=None, dfs=False, prefix=None):
     """Validate a list of event records against spec (Trace_*.tla).
 
     A rejected line is reported (violation or known finding); validation then resumes at the
@@ -441,6 +441,8 @@ def validate_trace(run, spec, recs, name, restart=lambda rec: True, describe=Non
     bounds.append(len(recs))
     parts = [recs[bounds[i]:bounds[i + 1]] for i in range(len(bounds) - 1)]
 
+    pre = list(prefix or [])
+
     def work(idx, part):
         accepted = 0
         rejects = []
@@ -449,8 +451,12 @@ def validate_trace(run, spec, recs, name, restart=lambda rec: True, describe=Non
         it = 0
         while rest:
             p = run.path("%s-%d-%d.ndjson" % (name, idx, it))
-            write_ndjson(p, rest)
+            write_ndjson(p, pre + rest)
             r, furthest, n, other = _validate_once(spec, cfg, p, timeout, env=env, dfs=dfs)
+            if furthest <= len(pre):
+                raise InfraError("trace prefix itself rejected in %s" % p)
+            furthest -= len(pre)
+            n -= len(pre)
             states += r.distinct
             gen += r.generated
             if furthest >= n + 1 and not other:
